@@ -198,8 +198,13 @@ def build_harness(impl, name, sources, exclude=(), wraps=(), extra=(), cxx=False
 # --------------------------------------------------------------------------
 # Lean side
 
+def lake_lock():
+    """one lake process at a time per lean project directory (worktrees have their own)"""
+    return Lock("lake-" + hashlib.sha256(LEAN.encode()).hexdigest()[:10])
+
+
 def lake(args, timeout=3000):
-    with Lock("lake"):
+    with lake_lock():
         return sh(["lake"] + args, timeout=timeout, cwd=LEAN)
 
 
@@ -252,7 +257,7 @@ def audit_axioms(module, theorems):
     src = "import %s\n" % module + "".join("#print axioms %s\n" % t for t in theorems)
     p = os.path.join(scratch(), "Audit_%s.lean" % module.replace(".", "_"))
     open(p, "w").write(src)
-    with Lock("lake"):
+    with lake_lock():
         rc, o, e = sh(["lake", "env", "lean", p], timeout=600, cwd=LEAN)
     txt = (o + e).decode(errors="replace")
     res = {}
